@@ -127,16 +127,18 @@ class Highlighter(object):
                 break
 
             if lineno > current_line:
-                diff = lineno - current_line
-                if diff > 1:
-                    lines += [""] * (diff - 1)
-
                 line += self._segment(current_type, buffer.rstrip("\n"))
                 # What the line holds behind its last token (a continuation backslash)
                 line += source_lines[current_line - 1][current_col:].rstrip()
 
                 # New line
                 lines.append(line)
+
+                # Lines without any token of their own (a lone continuation backslash)
+                # come after the line that has just been completed, as they are
+                for skipped_line in source_lines[current_line : lineno - 1]:
+                    lines.append(escape_markup(skipped_line.rstrip()))
+
                 line = ""
                 current_line = lineno
                 current_col = 0
